@@ -191,6 +191,23 @@ func genC17(r *Rng, tier string) []Case {
 			}
 		}
 	}
+	// one chain object written, a blob replaced by other bytes of the same length, written again
+	for i := 0; i < 40; i++ {
+		items := []Sx{}
+		n := 1 + r.Intn(3)
+		for j := 0; j < n; j++ {
+			var ocsp Sx = L()
+			if j == 0 {
+				ocsp = B(r.Bytes(1 + r.Intn(40)))
+			}
+			var sct Sx = L()
+			if r.Bool() {
+				sct = B(r.Bytes(1 + r.Intn(30)))
+			}
+			items = append(items, L(B(certs[r.Intn(len(certs)-1)]), ocsp, sct))
+		}
+		cs = append(cs, Case{"cc_write_history", []Sx{L(items...), Zi(int64(r.Intn(n))), Sym([]string{"ocsp", "sct"}[r.Intn(2)])}})
+	}
 	// hand-built inputs: duplicate keys, unknown keys, key order, missing cert
 	tx := func(s string) []byte { return append(canonHead(0x60, uint64(len(s))), s...) }
 	bs := func(b []byte) []byte { return append(canonHead(0x40, uint64(len(b))), b...) }
